@@ -147,35 +147,17 @@ def run(prog, chk, tier):
     CE.fingerprint_compute(prog, chk)
     # ---- (c) build side: decided from content flow (E2): what the CRC is computed over and what is appended
     CE.fingerprint_build(prog, chk)
-    from dtable import instrumented_body
-    # ---- (d) parse side
-    b, ups = instrumented_body(prog, FROM_BYTES)
-    og = Origins(prog, b)
-    comp = [(bi, t) for bi, t in b.calls() if og.callee_name(t) == FP + "::compute"]
-    wr = [(bi, t) for bi, t in b.calls() if og.callee_name(t).endswith("ByteOrder>::write_u16")]
-    ok = len(comp) == 1 and len(wr) == 1
-    detail = "compute calls %d, write_u16 calls %d" % (len(comp), len(wr))
-    if ok:
-        # the hashed buffer: to_vec(&orig_data[..data_offset])
-        tv = None
-        for bi, t in b.calls():
-            if og.callee_name(t).endswith("<impl [u8]>::to_vec"):
-                tv = shape(og.operand(t["args"][0]))
-        is_off = lambda s: "off" if isinstance(s, tuple) and s[0] in ("multi", "partial") and b.local_ty(s[1])["s"] == "usize" and (b.locals[s[1]]["name"] or "").find("len") < 0 else None
-        okr = (isinstance(tv, tuple) and tv[0] == "call" and re.search(r"Index<std::ops::RangeTo<usize>> for \[u8\]>::index$", tv[1])
-               and tv[2][1][0] == "agg" and is_off(tv[2][1][2][0]) is not None)
-        base = repr(tv[2][0]) if okr else ""
-        okr = okr and ("param" in base or "upvar" in base)
-        off_local = tv[2][1][2][0][1] if okr else None
-        val = shape(og.operand(wr[0][1]["args"][1]))
-        lf = lin_of(val, [lambda s: "off" if isinstance(s, tuple) and s[0] in ("multi", "partial") and s[1] == off_local else None,
-                          lambda s: "padded" if (isinstance(s, tuple) and s[0] == "call" and "AttributeExt>::padded_len" in s[1]) or
-                          (isinstance(s, tuple) and s[0] in ("multi", "partial") and _only_def_is(b, og, s[1], "AttributeExt>::padded_len")) else None])
-        dst = shape(og.operand(wr[0][1]["args"][0]))
-        is_len_field = lambda s: isinstance(s, tuple) and s[0] == "call" and re.search(r"Index(Mut)?<std::ops::Range<usize>>", s[1]) and s[2][1][0] == "agg" and s[2][1][2] == (("const", 2), ("const", 4))
-        ok = okr and is_len_field(dst) and lf == ({"off": 1, "padded": 1}, -20)
-        detail = "hashed region ok=%s, length value %r" % (okr, lf)
-    chk.ob("parse-side", "from_bytes: CRC over orig_data[..offset] with the length field set to offset + padded_len - 20", ok, where=b.loc(), detail=detail, how="origin")
+    # ---- (d) parse side: decided inside the scripted parser walk (C02 rule `ending-automaton`): on every accepted sequence that
+    # carries a FINGERPRINT the CRC was computed over bytes[0..2] ++ be16(len - 20) ++ bytes[4 .. start of the FINGERPRINT] (content
+    # of the stream handed to the checksum, whatever helper assembles it) and the comparison with the stored value succeeded
+    okp, badp = sub_check(prog, "c02", rules={"ending-automaton"})
+    chk.ob("parse-side", "from_bytes: an accepted FINGERPRINT was compared with the CRC over the bytes before it, length field rewritten to cover it", okp,
+           detail="failing: %s" % badp, how="E2 content of the checksum stream in the scripted walk (C02 ending-automaton instances)")
+    # the CRC the builder appends is computed over build(); what write_into() emits into caller-provided storage are the same bytes
+    # only if every writer covers its bytes and zeroes its padding (C12 rule instances)
+    okw, badw = sub_check(prog, "c12", rules={"zero-padding", "writer-coverage", "builder-header"})
+    chk.ob("build-side", "every serialisation path emits the bytes the CRC was computed over (writers cover their bytes, padding zeroed, header fully written)", okw,
+           detail="failing: %s" % badw, how="C12 rule instances re-evaluated on this tree")
     # comparison and refusal are rows of the C02 automaton (crc-mismatch); length-field binding needs C02-1 and C02-3
     ok2, bad = sub_check(prog, "c02", rules={"ending-automaton", "length-agreement", "tiling"})
     chk.ob("length-field-binding", "C02 premises hold: length agreement, nothing accepted after FINGERPRINT, CRC mismatch refused, tiling", ok2,
